@@ -332,6 +332,23 @@ func vAround(rnd *vRand, limit int) int {
 	return v
 }
 
+// a size that is acceptable under (limit, maxA): the message must be read completely
+func vWithin(rnd *vRand, limit int, maxA int) int {
+	top := limit
+	if top == 0 || maxA < top {
+		top = maxA
+	}
+	c := []int{top, top, top - 1, top - 2, top / 2, top / 3, top - 65536, top - 65537, 0, 1, 2047, 2048, 2049}
+	v := c[rnd.Intn(len(c))]
+	if v < 0 {
+		v = 0
+	}
+	if v > top {
+		v = top
+	}
+	return v
+}
+
 func vSlurpCases(out *vOut, rnd *vRand, st map[string]int) {
 	slurp := vSym("slurp")
 	// (0) replay of the Coq witnesses (props/C43.v: C43_literal_limit_refuted,
@@ -352,9 +369,10 @@ func vSlurpCases(out *vOut, rnd *vRand, st map[string]int) {
 		maxA := uint64([]int{0, 1, 5, 16, 64, 100, 255, 400, 1000}[rnd.Intn(9)])
 		s := MakeLimitedReaderSlurper(base, maxA)
 		var msgs []interface{}
+		clean := rnd.Intn(2) == 0 // only acceptable messages (reader errors still possible)
 		for m := 1 + rnd.Intn(4); m > 0; m-- {
 			limit := 0
-			if rnd.Intn(5) > 0 {
+			if clean || rnd.Intn(5) > 0 {
 				limit = []int{1, 2, 5, 16, 48, 64, 100, 101, 255, 400, 999, 1000, 1001, 2000}[rnd.Intn(14)]
 			}
 			ref := limit
@@ -362,6 +380,9 @@ func vSlurpCases(out *vOut, rnd *vRand, st map[string]int) {
 				ref = int(maxA)
 			}
 			total := vAround(rnd, ref)
+			if clean {
+				total = vWithin(rnd, limit, int(maxA))
+			}
 			if total > 1300 {
 				total = 1300
 			}
@@ -376,9 +397,10 @@ func vSlurpCases(out *vOut, rnd *vRand, st map[string]int) {
 		maxA := uint64([]int{2048, 65535, 65536, 65537, 131072, 133120, 200000, 300001}[rnd.Intn(8)])
 		s := MakeLimitedReaderSlurper(base, maxA)
 		var msgs []interface{}
+		clean := rnd.Intn(2) == 0
 		for m := 1 + rnd.Intn(4); m > 0; m-- {
 			limit := 0
-			if rnd.Intn(5) > 0 {
+			if clean || rnd.Intn(5) > 0 {
 				limit = []int{1, 48, 2048, 6378, 65536, 67584, 100000, 131072, 133120, 250000, 400000}[rnd.Intn(11)]
 			}
 			ref := limit
@@ -386,6 +408,9 @@ func vSlurpCases(out *vOut, rnd *vRand, st map[string]int) {
 				ref = int(maxA)
 			}
 			total := vAround(rnd, ref)
+			if clean {
+				total = vWithin(rnd, limit, int(maxA))
+			}
 			msgs = append(msgs, vSlurpOne(s, uint64(limit), vPayload(rnd.Intn(256), total), vGenScript(rnd, total, 1+rnd.Intn(4), rnd.Intn(8) == 0), false, st))
 		}
 		out.Case(slurp, base, maxA, msgs)
@@ -397,23 +422,34 @@ func vSlurpCases(out *vOut, rnd *vRand, st map[string]int) {
 	for rep := 0; rep < reps; rep++ {
 		for _, tg := range tags {
 			limit := tg.MaxMessageSize()
-			s := MakeLimitedReaderSlurper(averageMessageLength, MaxMessageLength)
-			var msgs []interface{}
 			ref := int(limit)
 			if limit == 0 {
 				ref = MaxMessageLength
 			}
-			for _, total := range []int{ref - 1, ref, ref + 1, rnd.Intn(ref + 1), ref + 1 + rnd.Intn(70000), ref} {
-				profile := 1 + rnd.Intn(4)
-				if total > 300000 {
-					profile = 2 + rnd.Intn(3)
+			run := func(totals []int) {
+				s := MakeLimitedReaderSlurper(averageMessageLength, MaxMessageLength)
+				var msgs []interface{}
+				for _, total := range totals {
+					profile := 1 + rnd.Intn(4)
+					if total > 300000 {
+						profile = 2 + rnd.Intn(3)
+					}
+					if total > 2000000 {
+						profile = 3
+					}
+					msgs = append(msgs, vSlurpOne(s, limit, vPayload(rnd.Intn(256), total), vGenScript(rnd, total, profile, rnd.Intn(10) == 0), false, st))
 				}
-				if total > 2000000 {
-					profile = 3
-				}
-				msgs = append(msgs, vSlurpOne(s, limit, vPayload(rnd.Intn(256), total), vGenScript(rnd, total, profile, rnd.Intn(10) == 0), false, st))
+				out.Case(slurp, uint64(averageMessageLength), uint64(MaxMessageLength), msgs)
 			}
-			out.Case(slurp, uint64(averageMessageLength), uint64(MaxMessageLength), msgs)
+			// acceptable sizes only (for a tag without a limit nothing non-empty is "acceptable"
+			// in the literal reading, so that case is empty messages only)
+			if limit > 0 {
+				run([]int{ref - 1, ref, rnd.Intn(ref + 1), ref})
+			} else {
+				run([]int{0, 0})
+			}
+			// around and above the limit, then an acceptable one on the same slurper
+			run([]int{ref - 1, ref, ref + 1, rnd.Intn(ref + 1), ref + 1 + rnd.Intn(70000), ref})
 			st["slurp_tag_cases"]++
 		}
 	}
@@ -688,13 +724,17 @@ func vNetCases(t *testing.T, out *vOut, rnd *vRand, st map[string]int) {
 		nsteps := 5 + rnd.Intn(40)
 		universe := 1 + rnd.Intn(2*nb*maxsz+2)
 		var steps []vNetStep
+		others := other
+		if rnd.Intn(2) == 0 {
+			others = other[:2] // only tags that have a limit (consumed inside the peer)
+		}
 		for i := 0; i < nsteps; i++ {
 			tg := deliver[rnd.Intn(2)] // mostly the dedup-safe tags
 			switch rnd.Intn(8) {
 			case 0:
 				tg = deliver[rnd.Intn(len(deliver))]
 			case 1:
-				tg = other[rnd.Intn(len(other))]
+				tg = others[rnd.Intn(len(others))]
 			}
 			total := 1 + rnd.Intn(3)
 			switch rnd.Intn(16) {
